@@ -12,10 +12,10 @@
      n vertices and x ~ y exactly when [def x y] (x, y < n).
    The models of the constructors (coq/Graph/CtorModel.v) follow the Go code statement by
    statement; a Go panic is None. *)
-From Coq Require Import List ZArith Arith Bool.
+From Coq Require Import List ZArith Arith Bool Lia.
 From Mamba Require Import Graph.Model Graph.Tri Graph.Abstract Graph.CtorModel Graph.CtorSpec
   Graph.CtorDense Graph.CtorFill Graph.CtorPartite Graph.CtorFamilies Graph.CtorFlower Graph.CtorViews
-  Graph.CtorDecode Graph.CtorSparse Graph.CtorKneser Graph.CtorFolded Graph.CtorLine Graph.CtorInduced Graph.CtorAlias.
+  Graph.CtorDecode Graph.CtorSparse Graph.CtorKneser Graph.CtorFolded Graph.CtorLine Graph.CtorLineDef Graph.CtorRook Graph.CtorInduced Graph.CtorAlias Graph.CtorEdit Graph.CtorMulticode Graph.CtorColex.
 Import ListNotations.
 
 (* ---------------------------------------------------------------- what the invariant gives *)
@@ -113,23 +113,33 @@ Theorem C06_folded_hypercube : forall dim, 1 <= dim ->
 Proof. exact folded_hypercube_ok. Qed.
 Print Assumptions C06_folded_hypercube.
 
-(* KneserGraph(n,k) for all n, k (k > n gives the graph on 0 vertices): vertex x is the x-th
-   k-subset in the order of comb.Unrank, x ~ y iff IntersectionSize of the two subsets is 0.
-   Partial with respect to the definition: that [ksubset k x] enumerates the k-subsets of
-   {0..n-1} in colexicographic order as ascending lists (so that IntersectionSize is the size
-   of the intersection) is comb.Unrank's contract (C16), not proved here. *)
-Theorem C06_kneser_partial : forall n k, builds (kneser n k) (binom n k) (kneser_def k).
-Proof. exact kneser_ok. Qed.
-Print Assumptions C06_kneser_partial.
+(* KneserGraph(n,k) for all n, k (k > n gives the graph on 0 vertices): vertex x is the list
+   [ksubset k x] that comb.Unrank returns for rank x, and x ~ y iff x <> y and the two lists
+   have no common element. *)
+Theorem C06_kneser : forall n k, builds (kneser n k) (binom n k) (kneser_set_def k).
+Proof. exact kneser_set_ok. Qed.
+Print Assumptions C06_kneser.
 
-(* BipartiteKneserGraph(n,k) for 2k <= n: x < N = C(n,k) is the x-th k-subset A, N + j the j-th
-   (n-k)-subset B, A ~ B iff IntersectionSize(A,B) = k, i.e. A is contained in B.  (For
-   n >= k > n/2 the code builds the same relation, which is then empty, while the documented
-   definition is not: GENUINE DEFECT in notes/C06.md; same partiality as for Kneser.) *)
-Theorem C06_bipartite_kneser_partial : forall n k, 2 * k <= n ->
-  builds (bipartite_kneser n k) (binom n k + binom n k) (bikneser_def n k (binom n k)).
-Proof. intros n k H. apply bipartite_kneser_ok. apply (Nat.le_trans _ (2 * k)); [apply Nat.le_add_r|exact H]. Qed.
-Print Assumptions C06_bipartite_kneser_partial.
+(* The vertices: x |-> ksubset k x is a bijection between {0..C(n,k)-1} and the k-subsets of
+   {0..n-1} (as strictly ascending lists), with inverse the colexicographic rank sum C(c_t, t+1). *)
+Theorem C06_kneser_vertices : forall n k x, x < binom n k ->
+  length (ksubset k x) = k /\ Sorted.StronglySorted lt (ksubset k x) /\
+  Forall (fun e => e < n) (ksubset k x) /\ crank (ksubset k x) = x.
+Proof. exact ksubset_spec. Qed.
+Print Assumptions C06_kneser_vertices.
+
+Theorem C06_kneser_vertices_all : forall n c, Sorted.StronglySorted lt c -> Forall (fun x => x < n) c ->
+  crank c < binom n (length c) /\ ksubset (length c) (crank c) = c.
+Proof. exact ksubset_surj. Qed.
+Print Assumptions C06_kneser_vertices_all.
+
+(* BipartiteKneserGraph(n,k) for every n >= k >= 0 (for k > n it returns the graph on 0 vertices):
+   x < N = C(n,k) is the x-th k-subset A, N + j the j-th (n-k)-subset B, and A ~ B iff one of the
+   two sets contains the other (the code tests IntersectionSize = min(k, n-k)). *)
+Theorem C06_bipartite_kneser : forall n k, k <= n ->
+  builds (bipartite_kneser n k) (binom n k + binom n k) (bikneser_set_def n k (binom n k)).
+Proof. exact bipartite_kneser_set_ok. Qed.
+Print Assumptions C06_bipartite_kneser.
 
 (* FlowerSnark panics for even n; for odd n >= 3 it is the flower snark J_n; for every odd n
    (n = 1 included, where the definition would prescribe a loop) the result is well formed *)
@@ -180,6 +190,14 @@ Theorem C06_sparse_wf : forall g, swf g -> gwf (GS g) /\ grep (GS g) (sabs g).
 Proof. intros g W. split; [apply swf_gwf | apply swf_grep]; exact W. Qed.
 Print Assumptions C06_sparse_wf.
 
+(* MulticodeDecode (the struct fields are accumulated by hand) on every valid Multicode: first
+   byte n, then for each vertex in turn its larger neighbours + 1 in increasing order, each row
+   closed by 0, exactly n-1 rows: no panic, struct invariant, n vertices. *)
+Theorem C06_multicode_decode_wf : forall b0 rest, (0 <= b0)%Z -> mc_valid (Z.to_nat b0) 0 0 rest ->
+  exists g, multicode_decode (b0 :: rest) = Some g /\ dwf g /\ dn g = Z.to_nat b0.
+Proof. exact multicode_decode_ok. Qed.
+Print Assumptions C06_multicode_decode_wf.
+
 (* ---------------------------------------------------------------- views and transformations *)
 (* The complement view of any well-formed Graph value (dense, sparse, another view) is well
    formed and shows exactly the complement: x ~ y iff x <> y and not x ~ y before. *)
@@ -203,18 +221,42 @@ Proof. intros g a V W R Nd Hr. split; [apply awf_induced | apply induced_view_ok
 Print Assumptions C06_induced_view.
 
 (* LineGraphDense of any well-formed Graph value: no panic (every cell written lies inside the
-   triangle of M vertices), well formed, M vertices.  Partial: that two vertices are adjacent
-   exactly when the corresponding edges (in the order 01 02 12 03 ...) share an endpoint is tied
-   to the code by the correspondence runs only (it is in the model, not in a theorem). *)
-Theorem C06_line_graph_wf_partial : forall g a, awf a -> grep g a ->
-  exists h, line_graph g = Some h /\ dwf h /\ Z.of_nat (dn h) = a_M a.
-Proof. exact line_graph_ok. Qed.
-Print Assumptions C06_line_graph_wf_partial.
+   triangle of M vertices), struct invariant, one vertex per edge of the input in the order
+   01 02 12 03 13 23 ..., and two vertices adjacent exactly when the two edges are distinct and
+   share an endpoint. *)
+Theorem C06_line_graph : forall g a, awf a -> grep g a ->
+  exists h, line_graph g = Some h /\ dwf h /\ dn h = length (edge_list a) /\
+    Z.of_nat (dn h) = a_M a /\
+    forall p q, p < dn h -> q < dn h -> dadj h p q = line_def (edge_list a) p q.
+Proof. exact line_graph_def. Qed.
+Print Assumptions C06_line_graph.
 
-(* RookGraph(n, m) = LineGraphDense(CompletePartiteGraph(n, m)); same partiality *)
-Theorem C06_rook_wf_partial : forall n m, exists h, rook n m = Some h /\ dwf h.
-Proof. exact rook_wf. Qed.
-Print Assumptions C06_rook_wf_partial.
+(* RookGraph(n, m) for all n, m (0 included): vertex c*n + r is the cell in row r, column c;
+   adjacent iff same row or same column *)
+Theorem C06_rook : forall n m, builds (rook n m) (n * m) (rook_def n).
+Proof. exact rook_ok. Qed.
+Print Assumptions C06_rook.
+
+(* SplitEdge and Contract, partial: theorems about the composition of ABSTRACT edits they perform
+   (RemoveEdge + AddVertex; AddEdge(i, v) for v in N(j) + RemoveVertex(j)): the result is a simple
+   graph (Contract leaves no loop at i), with one vertex more / less and the documented adjacency.
+   Missing: that the DenseGraph / SparseGraph edits refine the abstract edits (C05's refinement,
+   not yet proved for RemoveVertex); the composed models are compared with the code on every run. *)
+Theorem C06_split_edge_abstract_partial : forall a i j, awf a -> i < an a -> j < an a -> i <> j ->
+  awf (a_split a i j) /\ an (a_split a i j) = S (an a) /\
+  (forall x y, x < an a -> y < an a -> adj (a_split a i j) x y = adj a x y && negb (pairb x y i j)) /\
+  (forall x, x < an a -> adj (a_split a i j) x (an a) = (x =? i) || (x =? j)).
+Proof. exact split_awf. Qed.
+Print Assumptions C06_split_edge_abstract_partial.
+
+Theorem C06_contract_abstract_partial : forall a i j, awf a -> i < an a -> j < an a ->
+  awf (a_contract a i j) /\ an (a_contract a i j) = an a - 1 /\
+  forall x y, x < an a - 1 -> y < an a - 1 ->
+    adj (a_contract a i j) x y =
+      let x' := up j x in let y' := up j y in
+      adj a x' y' || (negb (x' =? y') && (((x' =? i) && adj a j y') || ((y' =? i) && adj a j x'))).
+Proof. exact contract_awf. Qed.
+Print Assumptions C06_contract_abstract_partial.
 
 (* ---------------------------------------------------------------- aliasing with caller-supplied slices *)
 (* Heap model (buffers with addresses, coq/Graph/CtorModel.v): NewDense reads the caller's buffer
@@ -247,8 +289,16 @@ Example C06_families_nonvacuous :
   complete_partite [2; 0; 1] = Some (mkDense 3 2 [1; 1; 2]%Z [0; 1; 1]%Z 3) /\
   cycle 4 = Some (mkDense 4 4 [2; 2; 2; 2]%Z [1; 0; 1; 1; 0; 1]%Z 6) /\
   hypercube 2 = Some (mkDense 4 4 [2; 2; 2; 2]%Z [1; 1; 0; 0; 1; 1]%Z 6) /\
-  circulant 5 [-1; 7]%Z = Some (mkDense 5 10 [4; 4; 4; 4; 4]%Z [1; 1; 1; 1; 1; 1; 1; 1; 1; 1]%Z 10).
-Proof. vm_compute. repeat split; reflexivity. Qed.
+  circulant 5 [-1; 7]%Z = Some (mkDense 5 10 [4; 4; 4; 4; 4]%Z [1; 1; 1; 1; 1; 1; 1; 1; 1; 1]%Z 10) /\
+  rook 2 2 = Some (mkDense 4 4 [2; 2; 2; 2]%Z [1; 1; 0; 0; 1; 1]%Z 6) /\
+  edge_list (dabs (mkDense 3 2 [1; 1; 2]%Z [0; 1; 1]%Z 3)) = [(0, 2); (1, 2)] /\
+  mc_valid 3 0 0 [2; 3; 0; 0]%Z /\
+  multicode_decode [3; 2; 3; 0; 0]%Z = Some (mkDense 3 2 [2; 1; 1]%Z [1; 1; 0]%Z 3).
+Proof.
+  split; [vm_compute; reflexivity|]. split; [vm_compute; reflexivity|]. split; [vm_compute; reflexivity|].
+  split; [vm_compute; reflexivity|]. split; [vm_compute; reflexivity|]. split; [vm_compute; reflexivity|].
+  split; [cbn; repeat split; lia|vm_compute; reflexivity].
+Qed.
 
 (* the views on a sparse path 0-1-2 plus the isolated vertex 3, and the caller overwriting its slice *)
 Example C06_views_nonvacuous :
